@@ -42,7 +42,7 @@ add('C06', ['C06', 'C06S'], 'model_checking',
     "Stage 1: differential explicit-state search: every history of write requests (puts, conditional puts, deletes, range deletes below/above the threshold, session records, sequence puts, secondary indexes) up to the depth bound is applied through six routes (live, replay on a second DB, close+reopen at every split, crash on a strict in-memory FS + replay from the stored commit offset, snapshot with several chunk sizes + replay, real leader) and the full ordered dumps must be identical. Stage 2: schedule exploration of the real cluster (client cancellation, failed BecomeLeader, rolling isolation, crash+restart, spurious failover): at the end every replica's database equals the fold of the final leader's log up to the commit offset stored in that database.",
     "DESIGN.md §3 C06, §10", "Real kv.DB / Pebble; depth and alphabet bounded; differential oracle (no hand-written expected values). " + CLUSTER_NOTE, T_SEQX + ", differential between application routes + " + T_SCHED, 'seqx+sched')
 add('C07', ['C07', 'C07S', 'C07F', 'C07N'], 'fault_enumeration',
-    "For histories of writes interleaved with flush-inducing events, every filesystem-operation index of the run is a crash point on Pebble's strict in-memory FS: the reopened DB must equal the fold of entries 0..c for its stored commit offset c, terms acknowledged before the crash survive, replay from c+1 reaches the uncrashed state, and commit offsets are written exactly once in order. Stage 2: schedule exploration of the real leader write pipeline (2-3 writers, WAL sync thread, cursors, ack receivers): every batch commit of the commit-offset record seen at the kv.Factory seam is previous+1 and every committed entry is applied. Protocol-event stage on the follower (h/c07f, lib/ffsm): every sequence of 13 follower protocol events up to the depth from a preloaded state (two entries held, one applied): after every event the follower's database is the fold of the entries it holds up to the commit offset stored in it.",
+    "For histories of writes interleaved with flush-inducing events, every filesystem-operation index of the run is a crash point on Pebble's strict in-memory FS: the reopened DB must equal the fold of entries 0..c for its stored commit offset c, terms acknowledged before the crash survive, replay from c+1 reaches the uncrashed state, and commit offsets are written exactly once in order. Stage 2: schedule exploration of the real leader write pipeline (2-3 writers, WAL sync thread, cursors, ack receivers): every batch commit of the commit-offset record seen at the kv.Factory seam is previous+1 and every committed entry is applied. Protocol-event stage on the follower (h/c07f, lib/ffsm): every sequence of 13 follower protocol events up to the depth from a preloaded state (two entries held, one applied): after every event the follower's database is the fold of the entries it holds up to the commit offset stored in it. The schedule stage also runs a real follower on a real directory whose apply round is in progress (plain, and with a slow read of one entry) when the next term starts and the new leader restores the node from a snapshot: the stored commit offset is not below what the node answered to the transfer and the database is the fold of the leader's log up to it.",
     "DESIGN.md §2.4 E3b, §3 C07", "Pebble's StrictMem semantics are the crash model; WAL side: everything appended survives or only synced entries survive.", "exhaustive crash-point enumeration over the real storage engine on a crash-simulating filesystem + " + T_SCHED + " + " + T_FSM, 'e3+sched+fsm')
 add('C08', ['C08'], 'exploration',
     "Stateless exploration of the real leader controller (real WAL, real Pebble DB, real quorum tracker and follower cursors) with scripted followers: every schedule with <=2 (thorough <=3) non-default scheduling choices of 2-3 concurrent writers, the WAL sync thread, cursors and ack receivers; oracle on results, WAL contiguity, apply order, response identity, and commit/head offsets at every scheduling point.",
